@@ -44,7 +44,7 @@ impl JoinedTableData {
 
         let joined_table = execution_engine.get_table(&join.joined_table)?.clone();
         let join_on_column_index = joined_table.index_for(&join.joined_column)
-            .ok_or(ExecutionError::ColumnNotFound(join.joiner_column.clone()))?;
+            .ok_or(ExecutionError::ColumnNotFound(join.joined_column.clone()))?;
 
         let mut joined_table_data = JoinedTableData::new(&joined_table);
 
